@@ -84,6 +84,8 @@ class Project:
     # -- wire descriptions --------------------------------------------------------------------
     def symbol_type(self, tag):
         dims = len(tag["dims"]) << 13
+        if tag.get("raw_type_code") is not None:     # a type code the target reports instead of the real one (unknown to the client)
+            return dims | tag["raw_type_code"]
         if self.is_struct(tag["type"]):
             return 0x8000 | dims | (self.udts[tag["type"]]["tid"] & 0x0FFF)
         return dims | ATOMIC[tag["type"]][0]
